@@ -65,6 +65,12 @@ theorem joinTracking_preserving (c : Cfg) (s : State) (i : Nat) :
 macro "quiet_tac3" : tactic =>
   `(tactic| (simp [Eff.quiet, List.all_map, Function.comp_def, List.all_append]))
 
+theorem splitCont_quiet (sc : StageCfg) (down : List Nat) : (splitCont sc down).all Eff.quiet = true := by
+  unfold splitCont
+  split
+  · simp [Eff.quiet]
+  · simp [Eff.quiet, List.all_append, List.all_map, Function.comp_def]
+
 theorem hCompleteStage_legal (c : Cfg) (s : State) (id i : Nat) :
     EffAll LegalEff s (hCompleteStage c s id i).flatten := by
   unfold hCompleteStage
@@ -92,7 +98,7 @@ theorem hCompleteStage_legal (c : Cfg) (s : State) (id i : Nat) :
             obtain ⟨h1, h2⟩ := effAll_preserving s s _ (sameST_refl s) (joinTracking_preserving c s i)
             refine ⟨h1, ?_⟩
             simp only [List.flatten_cons, List.flatten_nil, List.append_nil, List.cons_append, List.nil_append]
-            refine effAll_write_then_quietB _ _ _ ?_ (by split <;> quiet_tac3)
+            refine effAll_write_then_quietB _ _ _ ?_ (by simp [Eff.quiet, splitCont_quiet])
             apply legalEff_setStage_tasks_same
             · rw [(h2.2 i).1]; exact hct'
             · rw [(h2.2 i).2]
